@@ -157,7 +157,7 @@ def run_programs(ctx: Ctx, n: int, gen_kw: Dict[str, Any], oracle_name: Optional
 # ------------------------------------------------------------------ exact-derivative oracle
 
 
-def dual_oracle(prog, check_views=False) -> List[Tuple[str, str]]:
+def dual_oracle(prog, check_flags=False) -> List[Tuple[str, str]]:
     """Run `prog` (ending in one `back`) on real MyGrad and on the dual-number NumPy twin; compare the
     gradient of every owner tensor (base None) with the exact derivative of sum(L*seed).  Returns failures."""
     import numpy as np
@@ -183,7 +183,9 @@ def dual_oracle(prog, check_views=False) -> List[Tuple[str, str]]:
     st = prog[-1]
     L = st[1]
     if du.const[L] != ex.v[L].constant:
-        return [("constant-flag", f"t{L}: implementation constant={ex.v[L].constant}, rule says {du.const[L]}")]
+        # the constant rule itself is C10's property; elsewhere a program on which the flags already differ
+        # (known C10 finding: forced non-constant views of constant bases) is outside this oracle
+        return [("constant-flag", f"t{L}: implementation constant={ex.v[L].constant}, rule says {du.const[L]}")] if check_flags else []
     r = ex.step(st)
     if du.const[L]:
         exp = {n: None for n in du.v if du.base.get(n) is None}
@@ -238,13 +240,23 @@ def same_grads(a, b, names=None):
     return None
 
 
-def report(out, results, prop, oracle, shrinkable=True):
-    """turn per-program oracle failures into (shrunk) violations, one per failure class"""
-    seen = set()
+def report(out, results, prop, oracle, shrinkable=True, sigfn=None, per_class=12):
+    """turn per-program oracle failures into (shrunk) violations.  One per failure class — or, when the property
+    supplies `sigfn` (signatures that depend on the *shrunk* program), one per distinct signature among the first
+    `per_class` failing programs of each class."""
+    seen, n_cls, sigs = set(), {}, set()
     for r in results:
         for cls, msg in r["fails"]:
-            if cls in seen:
-                continue
+            if sigfn is None:
+                if cls in seen:
+                    continue
+            else:
+                # candidates are grouped by the signature of the *unshrunk* program (shrinking only removes
+                # statements, so a program that already lacks a feature cannot belong to a family that needs it)
+                pre = (cls, sigfn(prop, cls, r["prog"]))
+                if n_cls.get(pre, 0) >= per_class // 2:
+                    continue
+                n_cls[pre] = n_cls.get(pre, 0) + 1
             seen.add(cls)
 
             def pred(p, cls=cls):
@@ -252,8 +264,14 @@ def report(out, results, prop, oracle, shrinkable=True):
 
             small = shrink(r["prog"], pred) if (shrinkable and cls != "ORACLE-CRASH") else r["prog"]
             msgs = [m for c, m in (oracle(small, 0) or []) if c == cls] or [msg]
-            # a class ending in "!" names a complete failure family: its signature carries no program features
-            sig = f"{prop}|{cls[:-1]}" if cls.endswith("!") else f"{prop}|{cls}|{prog_signature(small)}"
+            if sigfn is not None:
+                sig = sigfn(prop, cls, small)
+            else:
+                # a class ending in "!" names a complete failure family: its signature carries no program features
+                sig = f"{prop}|{cls[:-1]}" if cls.endswith("!") else f"{prop}|{cls}|{prog_signature(small)}"
+            if sig in sigs:
+                continue
+            sigs.add(sig)
             out.violations.append(Violation(sig, f"{cls}: {msgs[0]}",
                                             {"kind": "program", "program": small, "class": cls}))
     return seen
